@@ -74,7 +74,6 @@ impl<'f> Node<'f> {
         ensures r == self.a(),
     { unimplemented!() }
 }
-pub type FstType = u64;
 //@SRC src/raw/mod.rs :: struct Meta
 pub struct Meta {
     pub version: u64,
